@@ -15,6 +15,9 @@ EXTENDS MqttTopics
 
 CONSTANT PartialInsert,  \* TRUE: the pinned tree (subscribe stops at the first malformed filter, earlier
                          \* ones stay in the trie); FALSE: all filters are validated before any is inserted
+         PartialRemove,  \* TRUE: the pinned tree (TopicManager.unsubscribe stops at the first malformed filter: the filters
+                         \* behind it stay in the trie, while Session.unsubscribe forgets every filter of the packet);
+                         \* FALSE: every well-formed filter of the packet leaves the trie
          ResumePairwise  \* TRUE: a resumed session's filters are subscribed again each with its own QoS (the code);
                          \* FALSE: the QoS values are handed out in some other order (lead generation: must be refuted)
 
@@ -93,9 +96,13 @@ ISubscribe(c, fs, qs) ==
        /\ nodes' = T.nodes /\ ents' = T.ents
        /\ sess' = IF upto = Len(fs) THEN [sess EXCEPT ![c] = SessPut(@, fs, qs)] ELSE sess     \* Session.subscribe: Topics[f] = q, in order
 
+(* processUnsubscribe: TopicManager.unsubscribe removes filter by filter; Session.unsubscribe forgets   *)
+(* every filter of the packet, whatever TopicManager.unsubscribe returned                                 *)
 IUnsubscribe(c, fs) ==
-    LET T == RemAll([nodes |-> nodes, ents |-> ents], c, {fs[i] : i \in 1..Len(fs)})
-    IN /\ Unsubscribe(c, fs)
+    LET upto == IF PartialRemove THEN FirstBad(fs) - 1 ELSE Len(fs)
+        R == {i \in 1..upto : ImplValid(fs[i])}
+        T == RemAll([nodes |-> nodes, ents |-> ents], c, {fs[i] : i \in R})
+    IN /\ Unsubscribe(c, fs, R)
        /\ nodes' = T.nodes /\ ents' = T.ents
        /\ sess' = [sess EXCEPT ![c] = {s \in @ : \A i \in 1..Len(fs) : fs[i] # s.f}]
 
@@ -144,7 +151,7 @@ Refines == \A t \in Topics : ImplRoute(t) = Route(t)
 (* what the trie holds is what the contract calls live *)
 EntsAreSubs == {[c |-> e.c, f |-> e.p, q |-> e.q] : e \in ents} = subs
 (* what the sessions remember is what the contract calls live (repaired code: a rejected SUBSCRIBE records nothing) *)
-SessAreSubs == PartialInsert \/ \A c \in Clients : {[c |-> c, f |-> s.f, q |-> s.q] : s \in sess[c]} = {s \in subs : s.c = c}
+SessAreSubs == PartialInsert \/ PartialRemove \/ \A c \in Clients : {[c |-> c, f |-> s.f, q |-> s.q] : s \in sess[c]} = {s \in subs : s.c = c}
 TrieEmptyIffNoSubs == (subs = {}) <=> (nodes = {} /\ ents = {})
 NoDeadNodes == \A p \in nodes : (\E e \in ents : e.p = p) \/ Children(nodes, p) # {}
 =============================================================================
